@@ -145,10 +145,12 @@ FindBySizeOK(live, statSize, sz, est(_), R) ==
          /\ R = Offs(SubSeq(live, 1, n))
          /\ (n < Len(live) => statSize - SumOver(SubSeq(live, 1, n), est) < sz)      \* enough ...
          /\ (n > 0 => statSize - SumOver(SubSeq(live, 1, n - 1), est) >= sz)          \* ... and not more
-FindByAgeOK(live, before, R) ==
+\* mono: message times never decreased with offset (with a time index: over everything ever published,
+\* because index timestamps are carried forward; without one: over the live messages)
+FindByAgeOK(live, before, R, mono) ==
   /\ IsLivePrefix(live, R)
   /\ \A m \in Range(live) : m.off \in R => m.t <= before                 \* nothing newer removed
-  /\ NonDecreasingTimes(live) => \A m \in Range(live) : m.t < before => m.off \in R   \* nothing older left
+  /\ mono => \A m \in Range(live) : m.t < before => m.off \in R            \* nothing older left
 \* after the corresponding Trim..Multi call (r as for DeleteMulti): exactly R is gone
 TrimOK(live, R, r, liveAfter) ==
   /\ r.err = "" /\ Offs(r.deleted) = R /\ liveAfter = Minus(live, R)
